@@ -106,6 +106,8 @@ impl<Key, Value> Store<Key, Value>
     }
 
     pub(crate) fn put(&self, key: Key, value: Value, key_id: KeyId) {
+        #[cfg(cached_verif)]
+        let _verif_lock = crate::cache::verif::lock_scope("StoreShard");
         self.store.insert(key, StoredValue::never_expiring(value, key_id));
         self.stats_counter.add_key();
     }
@@ -113,6 +115,8 @@ impl<Key, Value> Store<Key, Value>
     pub(crate) fn put_with_ttl(&self, key: Key, value: Value, key_id: KeyId, time_to_live: Duration) -> ExpireAfter {
         let stored_value = StoredValue::expiring(value, key_id, time_to_live, &self.clock);
         let expire_after = stored_value.expire_after();
+        #[cfg(cached_verif)]
+        let _verif_lock = crate::cache::verif::lock_scope("StoreShard");
 
         self.store.insert(key, stored_value);
         self.stats_counter.add_key();
@@ -121,6 +125,8 @@ impl<Key, Value> Store<Key, Value>
     }
 
     pub(crate) fn delete(&self, key: &Key) -> Option<KeyIdExpiry> {
+        #[cfg(cached_verif)]
+        let _verif_lock = crate::cache::verif::lock_scope("StoreShard");
         if let Some(pair) = self.store.remove(key) {
             self.stats_counter.delete_key();
             return Some(KeyIdExpiry(pair.1.key_id(), pair.1.expire_after()));
@@ -129,6 +135,8 @@ impl<Key, Value> Store<Key, Value>
     }
 
     pub(crate) fn mark_deleted(&self, key: &Key) {
+        #[cfg(cached_verif)]
+        let _verif_lock = crate::cache::verif::lock_scope("StoreShard");
         if let Some(mut pair) = self.store.get_mut(key) {
             let stored_value = pair.value_mut();
             stored_value.is_soft_deleted = true;
@@ -142,6 +150,8 @@ impl<Key, Value> Store<Key, Value>
     }
 
     pub(crate) fn update(&self, key: &Key, value: Option<Value>, time_to_live: Option<Duration>, remove_time_to_live: bool) -> UpdateResponse<Value> {
+        #[cfg(cached_verif)]
+        let _verif_lock = crate::cache::verif::lock_scope("StoreShard");
         if let Some(mut existing_value) = self.store.get_mut(key) {
             let existing_expiry = existing_value.expire_after();
             let new_expiry = existing_value.update(value, time_to_live, remove_time_to_live, &self.clock);
@@ -157,6 +167,8 @@ impl<Key, Value> Store<Key, Value>
     }
 
     pub(crate) fn clear(&self) {
+        #[cfg(cached_verif)]
+        let _verif_lock = crate::cache::verif::lock_scope("StoreShard");
         self.store.clear();
     }
 
@@ -165,6 +177,8 @@ impl<Key, Value> Store<Key, Value>
     }
 
     pub(crate) fn is_present(&self, key: &Key) -> bool {
+        #[cfg(cached_verif)]
+        let _verif_lock = crate::cache::verif::lock_scope("StoreShard");
         let maybe_value = self.store.get(key);
         maybe_value.is_some()
     }
@@ -181,6 +195,8 @@ impl<Key, Value> Store<Key, Value>
     where Key: Hash + Eq,
           Value: Clone, {
     pub(crate) fn get(&self, key: &Key) -> Option<Value> {
+        #[cfg(cached_verif)]
+        let _verif_lock = crate::cache::verif::lock_scope("StoreShard");
         let maybe_value = self.store.get(key);
         let mapped_value = maybe_value
             .filter(|stored_value| stored_value.is_alive(&self.clock))
